@@ -4,6 +4,9 @@ import json, os
 VERIF = os.path.dirname(os.path.dirname(os.path.abspath(__file__)))
 ALL = [f"C{i:02d}" for i in range(1, 21)]
 
+# commits in /repo whose message starts with `verif-hook:` (cfg-guarded verification hooks)
+HOOK_COMMITS = ["12ac8be", "d787177"]
+
 CLAIMS = {
  "C04": dict(
     category="other",
@@ -554,6 +557,54 @@ CLAIMS = {
 
 NOT_YET = "not claimed yet: the model/theorems/tie for this property are still being built (see DESIGN.md §5)"
 
+# ---- round 10 (unify): the typer's unifier is inside the model (additive; see DESIGN.md "The typer's unifier — as built (round 10)")
+CLAIMS["C03"]["text"] += (
+    " The typer's unifier (typer/unify.rs: occurs, Typer::norm, Typer::unify with every arm, and the ena union-find table as the "
+    "typer observes it) is modelled in Model/Unify.lean and proved in Props/Unify.lean: unify_sound (after a unify that returned "
+    "true the two sides have normal forms that agree: equal up to array lengths one of which is ARRAY_WILDCARD_LEN; unify_sound_eq: "
+    "equal when no wildcard length is involved; unify_sound_eq_fails / wildcard_order_dependence: plain equality and order "
+    "independence are false for the real code), unify_extends (for every outcome, equations that held before still hold), "
+    "acyclic_invariant and reachable_acyclic (the occurs check keeps every reachable store acyclic and the table well-formed), "
+    "norm_idempotent, norm_no_bound_var, norm_total / norm_terminates (on an acyclic store norm returns; explicit bound on the nesting "
+    "of calls), unify_complete_partial, arms_match_source / diag_messages_match_source (the arms and diagnostics of the Rust match, "
+    "regenerated from the source on every run, are the ones the model mirrors). Tie: gv unify runs generated scripts (alias chains "
+    "then knot-tying, nested constructors of every kind, one mismatch of every class at every depth, both argument orders) on a "
+    "fresh REAL Typer through the cfg(goml_verif) hook and the model answers the same scripts; outcome, diagnostic class and the "
+    "normal forms of both sides and of every variable are compared after every step. Whole programs reaching each unify diagnostic "
+    "class (36 hand-written) are compiled by the real pipeline and counted.")
+CLAIMS["C03"]["note"] += (
+    " Unifier (round 10) — proved: the theorems of Props/Unify.lean about Model/Unify.lean. Validated only: that Model/Unify.lean "
+    "computes what the real Typer::unify/norm compute (step-by-step comparison on generated scripts; independent oracle on the real "
+    "answers: norm l agrees with norm r after true, exactly one diagnostic iff false, the real store is never cyclic, no crash). Not "
+    "modelled: constraint generation (check.rs), Typer::solve (the re-queueing loop, Overloaded and StructFieldAccess constraints), "
+    "inst_ty/subst_ty; path compression of ena (unobservable through find/probe_value). Termination of unify itself (as opposed to "
+    "norm) is not proved: the model carries fuel. Trusted in addition: the verif-hook commit (accessors only), harness/src/unify.rs.")
+CLAIMS["C03"]["text"] += (
+    " The constraint loop Typer::solve (TypeEqual, Overloaded and StructFieldAccess constraints, the re-queueing `while changed` "
+    "loop, is_concrete, decompose_struct_type, instantiate_struct_field_ty, substitute_ty_params, inst_ty, resolve_type_name for "
+    "package Main) is modelled in Model/Solve.lean and proved in Props/Solve.lean: solve_eq_sound (if solve pushes no diagnostic, "
+    "every queued equality holds in the final store), solve_acyclic (for every queue, environment and outcome the store stays "
+    "acyclic and only refines), solve_terminates (the loop ends within weight+1 passes: every pass that reports progress strictly "
+    "decreases the weight of what it re-queues), solve_messages_match_source. Tie: gv solve pushes generated constraint queues "
+    "(deferred overloaded calls and field accesses unblocked by later constraints, multi-pass chains, every diagnostic of solve) "
+    "into a fresh REAL Typer and calls the real solve against two real environments (a compiled prelude with synthetic generic impl "
+    "rows; the same plus a dependency package); the model answers the same queues; diagnostics in order, left-over queue, number of "
+    "keys and all normal forms are compared.")
+CLAIMS["C03"]["note"] += (
+    " Solve (round 10) — proved: the theorems of Props/Solve.lean about Model/Solve.lean; validated only: model = real solve on "
+    "generated queues (oracle on the real answers: no cyclic store / crash, clean run => every queued equality holds under the real "
+    "final normal forms, left-over queue iff the two final diagnostics). Not modelled: constraint GENERATION (check.rs), packages "
+    "other than Main as the current package, more than one dependency (HashMap iteration order). Soundness of field / overloaded "
+    "constraints themselves (as opposed to the equalities they generate) is not stated.")
+CLAIMS["C04"]["note"] += (
+    " Round 10: Props/Unify.lean proves that the occurs check keeps the typer's union-find store acyclic for every outcome of unify "
+    "(acyclic_invariant, reachable_acyclic) and that norm returns on an acyclic store within an explicit number of nested calls "
+    "(norm_total, norm_terminates); cyclic_store_not_acyclic shows the invariant is what prevents the unbounded recursion. The tie "
+    "(gv unify, part of ./check C03) walks the REAL store after every step and reports a cyclic store or a killed process with the "
+    "script as failing input; the seeded change C04-occurs-check-alias is caught by it. Props/Solve.lean: solve_terminates (the "
+    "constraint loop cannot spin: explicit bound on the number of passes), solve_acyclic.")
+
+
 def main():
     checks = []
     for pid in ALL:
@@ -576,9 +627,13 @@ def main():
         "setup_cmd": "./check setup",
         "hooks": {
             "guard": "goml_verif",
-            "enable": "none needed: every IR has public fields, the harness links the crates in /repo by path (no cfg-guarded source change exists)",
+            "enable": "RUSTFLAGS='--cfg goml_verif' when building the harness (tools/vlib.py::build_harness and harness/.cargo/config.toml set it); "
+                      "the only guarded code is `#[cfg(goml_verif)] impl Typer { verif_fresh, verif_tvar, verif_tvar_index, verif_unify, "
+                      "verif_norm, verif_probe, verif_push_constraint, verif_constraints, verif_var_count }` at the end of "
+                      "crates/compiler/src/typer/unify.rs (accessors to the private norm/unify, the constraint queue and "
+                      "the union-find table; no behaviour depends on them). Everything else links the crates in /repo by path unguarded.",
             "baseline_off_cmd": "cd /repo && cargo nextest run --workspace --no-fail-fast --offline --test-threads 8 || cargo test --workspace --no-fail-fast --offline",
-            "source_commits": [],
+            "source_commits": HOOK_COMMITS,
             "add_only": True,
         },
         "engines": [
